@@ -64,7 +64,9 @@ type c15Obs struct {
 	Log string `json:"log"` // its log field, escaped as the action handles it (newline = `\n`)
 }
 
-// raw content of fragment id (1-based): "" | one char | four chars, first char unique per position
+// raw (DECODED) content of fragment id (1-based), first char unique per position:
+// "" | one char | four chars | char + literal backslash | char + literal backslash + letter n | char + quote;
+// a final chunk additionally ends with a real newline
 func c15Content(f c15Frag, id int) string {
 	s := ""
 	switch f.K {
@@ -72,6 +74,12 @@ func c15Content(f c15Frag, id int) string {
 		s = string(rune('a' + id))
 	case "l":
 		s = string(rune('A'+id)) + "xyz"
+	case "b":
+		s = string(rune('G'+id)) + `\`
+	case "n":
+		s = string(rune('M'+id)) + `\n`
+	case "q":
+		s = string(rune('S'+id)) + `"`
 	}
 	if f.F {
 		s += "\n"
@@ -79,7 +87,23 @@ func c15Content(f c15Frag, id int) string {
 	return s
 }
 
-func c15Esc(s string) string { return strings.ReplaceAll(s, "\n", `\n`) }
+// the escaped form the action works on (what the container runtime wrote between the quotes)
+func c15Esc(s string) string {
+	var b strings.Builder
+	for i := 0; i < len(s); i++ {
+		switch s[i] {
+		case '\n':
+			b.WriteString(`\n`)
+		case '\\':
+			b.WriteString(`\\`)
+		case '"':
+			b.WriteString(`\"`)
+		default:
+			b.WriteByte(s[i])
+		}
+	}
+	return b.String()
+}
 
 func c15Has(xs []string, x string) bool {
 	for _, y := range xs {
@@ -220,6 +244,7 @@ type c15Mismatch struct {
 	Panic        string   `json:"panic,omitempty"`
 	At           int      `json:"at"`
 	TOWhileSkip  bool     `json:"timeout_while_skipping"`
+	BackslashN   bool     `json:"backslash_n_partial"` // the case has a partial chunk ending in backslash + 'n' (D20)
 	ModelPanics  bool     `json:"model_panics"`
 	RealPanicked bool     `json:"real_panicked"`
 }
@@ -327,7 +352,7 @@ func c15RunCase(c *c15Case) (mm *c15Mismatch, nontrivial bool) {
 		kind = "run_lost_on_timeout" // everything is as demanded except that runs closed by a time-out are missing
 	}
 	return &c15Mismatch{Kind: kind, Plugin: "k8s_multiline", Case: c, Got: obs, AsModelled: !c.Panics && c15AsModelled(c, esc, obs),
-		TOWhileSkip: c15Has(c.Dev, "D17"), ModelPanics: c.Panics}, nontrivial
+		TOWhileSkip: c15Has(c.Dev, "D17"), BackslashN: c15Has(c.Dev, "D20"), ModelPanics: c.Panics}, nontrivial
 }
 
 func TestVerifC15K8s(t *testing.T) {
@@ -383,7 +408,7 @@ func TestVerifC15K8s(t *testing.T) {
 					nontrivial++
 				}
 				if mm != nil {
-					key := fmt.Sprintf("%s|as_modelled=%v|empty_log=%v|class=%s|skip=%v", mm.Kind, mm.AsModelled, mm.EmptyLog, mm.PanicClass, mm.TOWhileSkip)
+					key := fmt.Sprintf("%s|as_modelled=%v|empty_log=%v|class=%s|skip=%v|bsn=%v", mm.Kind, mm.AsModelled, mm.EmptyLog, mm.PanicClass, mm.TOWhileSkip, mm.BackslashN)
 					counts[key]++
 					if counts[key] <= 25 {
 						mms = append(mms, mm)
